@@ -40,6 +40,8 @@ type Ctx struct {
 	Notes              []string
 	Programs           int
 	knownSeen          map[string]int
+	CrossDir           string
+	Cross              *CrossStats
 	LoadTime           time.Duration
 	NativeTime         time.Duration
 	ExploreTime        time.Duration
@@ -493,6 +495,7 @@ func (c *Ctx) Finish() int {
 		"queries": map[string]int{"branch": q.Branch, "assert": q.Assert, "assume": q.Assume, "concretize": q.Concretize,
 			"witness_models": q.Witness, "sat": q.Sat, "unsat": q.Unsat, "unknown": q.Unknown},
 		"solver":                map[string]any{"binary": "z3 -in (incremental, push/pop)", "version": solverVersion("z3"), "seconds": solverT.Seconds()},
+		"cross_solver":          c.Cross,
 		"stubs_hit":             stubs,
 		"witnesses":             witnesses,
 		"path_ends":             ends,
